@@ -34,7 +34,7 @@ func configs(quick bool) []Cfg {
 				InitDE: 1, MaxProposals: 1, MaxReq: 1, MaxTransitionSec: 60, FeePerSigner: 5, Events: nonce, Depth: 8},
 			// F: requests during a signed (not forced) hand-over: incoming group with and without nonces
 			{Name: "signed-handover-requests", CurN: 2, CurT: 1, IncN: 2, IncT: 2, SigningPeriod: 3, MaxSigningAttempt: 1, CreationPeriod: 8,
-				InitDE: 3, MaxProposals: 1, MaxReq: 1, MaxTransitionSec: 60, FeePerSigner: 7, Events: signed, Depth: 10},
+				InitDE: 3, MaxProposals: 1, MaxReq: 1, MaxTransitionSec: 60, FeePerSigner: 7, Events: signed, Depth: 9},
 		}
 	}
 	return []Cfg{
